@@ -2373,10 +2373,11 @@ def straight_line(alpha1, delta1, alpha2, delta2, alpha3, delta3):
     n1 = a1 * b2 - a2 * b1
     n2 = a2 * b3 - a3 * b2
     n3 = a1 * b3 - a3 * b1
-    psi = acos(
-        (l1 * l2 + m1 * m2 + n1 * n2)
-        / (sqrt(l1 * l1 + m1 * m1 + n1 * n1)
-           * sqrt(l2 * l2 + m2 * m2 + n2 * n2)))
+    # Round-off may push the cosine slightly beyond +/-1 for aligned bodies
+    cos_psi = ((l1 * l2 + m1 * m2 + n1 * n2)
+               / (sqrt(l1 * l1 + m1 * m1 + n1 * n1)
+                  * sqrt(l2 * l2 + m2 * m2 + n2 * n2)))
+    psi = acos(max(-1.0, min(1.0, cos_psi)))
     omega = asin(
         (a2 * l3 + b2 * m3 + c2 * n3)
         / (sqrt(a2 * a2 + b2 * b2 + c2 * c2)
